@@ -2,7 +2,7 @@
 import os
 
 from . import core
-from .rules import stdio, cert, mark, exact, optstore, inval, idx, atomic, own, tokens, idxclass, copy, pair, structfree, buf, div, counter, sentinel, appendinit, verdict, basismap, zerotol, escape, lenclass, djsym
+from .rules import stdio, cert, mark, exact, optstore, inval, idx, atomic, own, tokens, idxclass, copy, pair, structfree, buf, div, counter, sentinel, appendinit, verdict, basismap, zerotol, escape, lenclass, djsym, ndet, useb4check, norms
 from .effects import Effects
 
 FIX = os.path.join(os.path.dirname(os.path.abspath(__file__)), "fixtures")
@@ -90,7 +90,15 @@ def fx_pair():
     return [("R-PAIR fires exactly on {leak_early_return, leak_goto_skip, leak_heap}", got == ["leak_early_return", "leak_goto_skip", "leak_heap"], str(got))]
 
 
+def fx_useb4():
+    prog = core.build_fixture([os.path.join(FIX, "useb4.c")])
+    r = useb4check.run(prog, scope=lambda f: True)
+    got = sorted(v.func for v in r.violations)
+    return [("R-USEB4CHECK fires exactly on {bad_order, bad_straight}", got == ["bad_order", "bad_straight"], str(got))]
+
+
 FIXTURES = {
+    "C17": [fx_useb4],
     "C18": [fx_pair],
     "C16": [fx_copy],
     "C07": [fx_idx],
@@ -459,6 +467,37 @@ PROPS = {
         "level_note": "trusted: the GMP transfer table of sa/rules/zerotol.py; values supplied by a host program through "
                       "ILLfactor_set_factor_dparam are outside the analysis",
         "not_decided": "B^-1 B = I itself; singular detection; update histories; tableau row assembly",
+    },
+    "C17": {
+        "rules": [lambda prog, tier: buf.run(prog),
+                  lambda prog, tier: idx.run(prog),
+                  lambda prog, tier: idxclass.run(prog),
+                  lambda prog, tier: lenclass.run(prog),
+                  lambda prog, tier: appendinit.run(prog),
+                  lambda prog, tier: counter.run(prog),
+                  lambda prog, tier: useb4check.run(prog),
+                  lambda prog, tier: norms.run(prog),
+                  lambda prog, tier: ndet.run(prog)],
+        "technique": "all-sites census rules over the type-resolved AST/CFG export: bounded-write classification of every buffer-writing "
+                     "call, path-sensitive guard analysis of externally supplied indices, loop-local index-space typing of subscripts, "
+                     "dimension typing of allocation / block-copy lengths, initialisation of appended slots, and a nondeterminism-source "
+                     "census (seeds, clock, pid, address-valued expressions) with taint to branch conditions",
+        "explanation": "Decides structural necessary conditions of C17 over the whole library (not only the reader closure of C11): (R-BUF) "
+                       "every copy / format into a fixed or heap buffer is bounded by it; (R-IDX) every externally supplied index is "
+                       "range-checked against the dimension of each array it subscripts on every path; (R-IDXCLASS) no subscript mixes "
+                       "row / structural / internal-column spaces; (R-LENCLASS) allocations and block operations on problem arrays use the "
+                       "array's own dimension; (R-APPENDINIT) slots appended by the add-row / add-column paths are initialised before the "
+                       "dimension is published; (R-CNT) basis counters are bounded; (R-NDET) the reproducibility sentence: constant seeds, "
+                       "no clock / pid / libc randomness outside the timing wrappers, time reaches a branch only at the documented time "
+                       "limit, no relational pointer comparison across objects and no pointer-to-integer value outside the slab allocator.",
+        "level_text": "All-sites guarantee for the listed shapes; these are the memory-safety and reproducibility clauses whose truth is "
+                      "visible in the code. Use-after-free over call histories, reads of uninitialised heap cells in the solver's work "
+                      "arrays, signed overflow and alignment are NOT decided (they quantify over runtime values / heap states). One known "
+                      "finding recorded: the LP writer's line buffer overflows for long names and long coefficients (3 sites).",
+        "level_note": "trusted: clang record layouts for destination sizes; frozen exception tables in sa/rules/buf.py, idx.py, lenclass.py, "
+                      "ndet.py (one reason per entry)",
+        "not_decided": "temporal safety (use-after-free, double free across calls), uninitialised reads inside work arrays (seed C17/3), "
+                       "staleness of pricing norms against the basis (seed C17/2), signed overflow, misaligned access",
     },
     "C20": {
         "rules": [lambda prog, tier: stdio.run(prog)],
